@@ -1,41 +1,61 @@
-import CV.Proofs.HuffOptMain
+import CV.Proofs.HuffTies
 /-!
 # C15 — Huffman codebooks are prefix-free, complete, optimal and mutually consistent
 
 Property theorems only (helper lemmas: `CV/Proofs/Huff*.lean`).  All theorems are about the
 Impl model `CV.Huff` (`CV/Model/Huff.lean`): `encTree`/`decTree` are the two constructors
 (`EncoderHuffmanTree` / `DecoderHuffmanTree :: try_from_probabilities`), `encodeSuffix`,
-`encodePrefix`, `decode` the codebook methods.  They hold for **every** `Admissible` weight list:
-non-empty, at most `usize::MAX / 4` entries (the constructor's guard), weight sum representable in
-the weight type (`wb = some bits`; `wb = none`: float weights whose sums are exact) — zeros,
-repeated weights, one symbol, many symbols.
+`encodePrefix`, `decode` the codebook methods.
+
+**Scope.**  The constructors are generic in the weight type; so is the model (`WeightOps α`:
+an order `lt`, an addition `add` that may panic, a predicate for unorderable sums).
+
+* The *structural* theorems (§1: both arrays describe one tree, prefix-freeness, Kraft equality,
+  `prefix = reverse suffix`, `decode ∘ prefix`, completeness, truncation, single symbol,
+  out-of-alphabet rejection) are proved for **every** `WeightOps` — arbitrary order, arbitrary
+  addition — hence for integer weights in checked and in wrapping (release) builds and for
+  `f32`/`f64` weights whose sums **round** (`f32Ops`, `f64Ops`: native IEEE arithmetic, the
+  instances the correspondence check runs), including zeros, `-0.0`, negative weights,
+  infinities, denormals.  Their only hypothesis is that the constructor returned a tree; §2
+  says when it does.  None of them depends on the weight values, only on "pop two entries,
+  push a combined one".
+* *Optimality* (§4) and the tie-breaking consequence "codeword lengths are monotone in
+  `(weight, index)`" (§3) are statements about sums and are proved for **exact addition**
+  (`exactOps`: naturals) and for checked integer weights whose total fits the type (which
+  coincide with `exactOps`, `independent_of_weight_type`).  For float weights whose sums round
+  optimality holds only up to rounding and is not claimed (DESIGN §6 C15, §10).
 -/
 namespace CV.Huff.C15
 open CV CV.Huff
 
-variable {wb : Option Nat} {ws : List Nat} {en : List Nat} {dn : List (Nat × Nat)}
+variable {α : Type} {ops : WeightOps α} {ws : List α} {en : List Nat} {dn : List (Nat × Nat)}
 
-/-- both constructors succeed (no panic, no overflow, no unchecked index out of bounds) and
-report the right alphabet size -/
-theorem constructors_ok (h : Admissible wb ws) :
-    ∃ en dn, encTree wb ws = .ok en ∧ decTree wb ws = .ok dn ∧
+/-! ## 1. Structure — every weight type -/
+
+/-- the two constructors succeed together and report the right alphabet size -/
+theorem constructors_agree (hen : encTree ops ws = .ok en) :
+    ∃ dn, decTree ops ws = .ok dn ∧
       encNumSymbols en = ws.length ∧ decNumSymbols dn = ws.length := by
-  obtain ⟨en, dn, T, he, hd, _, B⟩ := admissible_build h
-  refine ⟨en, dn, he, hd, ?_, ?_⟩
+  obtain ⟨dn, T, hd, _, B⟩ := built_of_enc hen
+  refine ⟨dn, hd, ?_, ?_⟩
   · have := B.en_len; have := B.n_pos; simp only [encNumSymbols]; omega
   · have := B.dn_len; simp only [decNumSymbols]; omega
+
+/-- … and conversely (`usize::MAX / 4` is the encoder's size guard, the decoder's is laxer) -/
+theorem constructors_agree_conv (hdn : decTree ops ws = .ok dn) (hmax : ws.length ≤ usizeMax / 4) :
+    ∃ en, encTree ops ws = .ok en := by
+  obtain ⟨en, T, he, _, _⟩ := built_of_dec hdn hmax
+  exact ⟨en, he⟩
 
 /-- **same tree**: there is one binary tree `T` whose leaves are exactly the symbols
 `0 … n-1` such that the encoder's parent array and the decoder's child table both describe `T`
 (`EncDesc`: entry of child = `parent << 1 | bit`, root entry `0`; `DecDesc`: entry `i - n` =
 the two children of internal node `i`), and every codeword is the root-to-leaf path in `T`. -/
-theorem same_tree (h : Admissible wb ws) (hen : encTree wb ws = .ok en)
-    (hdn : decTree wb ws = .ok dn) :
+theorem same_tree (hen : encTree ops ws = .ok en) (hdn : decTree ops ws = .ok dn) :
     ∃ T : Tree, T.IsCodeTree ws.length ∧
       EncDesc en T ∧ en[T.rootId]? = some 0 ∧ DecDesc dn ws.length T ∧
       ∀ s, s < ws.length → ∃ p, T.code s = some p ∧ encodePrefix en s = .ok p := by
-  obtain ⟨en', dn', T, he, hd, _, B⟩ := admissible_build h
-  rw [hen] at he; injection he with he; subst he
+  obtain ⟨dn', T, hd, _, B⟩ := built_of_enc hen
   rw [hdn] at hd; injection hd with hd; subst hd
   refine ⟨T, B.leaves, B.encDesc, B.root0, B.decDesc, ?_⟩
   intro s hs
@@ -43,22 +63,19 @@ theorem same_tree (h : Admissible wb ws) (hen : encTree wb ws = .ok en)
   exact ⟨p, hp, B.prefix hp⟩
 
 /-- `encode_symbol_prefix` emits the reverse of what `encode_symbol_suffix` emits -/
-theorem prefix_eq_reverse_suffix (h : Admissible wb ws) (hen : encTree wb ws = .ok en)
-    {s : Nat} (hs : s < ws.length) :
+theorem prefix_eq_reverse_suffix (hen : encTree ops ws = .ok en) {s : Nat} (hs : s < ws.length) :
     ∃ w, encodePrefix en s = .ok w ∧ encodeSuffix en s = .ok w.reverse := by
-  obtain ⟨en', dn', T, he, _, _, B⟩ := admissible_build h
-  rw [hen] at he; injection he with he; subst he
+  obtain ⟨dn', T, _, _, B⟩ := built_of_enc hen
   obtain ⟨p, hp⟩ := B.code_of_lt hs
   exact ⟨p, B.prefix hp, B.suffix hp⟩
 
 /-- the decoder tree inverts the encoder tree, whatever follows the codeword:
 `decode (prefix s ++ rest) = (s, rest)` -/
-theorem decode_prefix (h : Admissible wb ws) (hen : encTree wb ws = .ok en)
-    (hdn : decTree wb ws = .ok dn) {s : Nat} (hs : s < ws.length) :
+theorem decode_prefix (hen : encTree ops ws = .ok en) (hdn : decTree ops ws = .ok dn)
+    {s : Nat} (hs : s < ws.length) :
     ∃ w, encodePrefix en s = .ok w ∧
       ∀ rest, decode dn (w.map some ++ rest) = .ok (s, rest) := by
-  obtain ⟨en', dn', T, he, hd, _, B⟩ := admissible_build h
-  rw [hen] at he; injection he with he; subst he
+  obtain ⟨dn', T, hd, _, B⟩ := built_of_enc hen
   rw [hdn] at hd; injection hd with hd; subst hd
   obtain ⟨p, hp⟩ := B.code_of_lt hs
   exact ⟨p, B.prefix hp, fun rest => B.dec_word hp rest⟩
@@ -66,23 +83,20 @@ theorem decode_prefix (h : Admissible wb ws) (hen : encTree wb ws = .ok en)
 /-- conversely, whatever `decode` returns on arbitrary bits is a symbol of the alphabet whose
 codeword is exactly what was consumed (the code is complete: arbitrary bits never get stuck
 other than by running out) -/
-theorem decode_sound (h : Admissible wb ws) (hen : encTree wb ws = .ok en)
-    (hdn : decTree wb ws = .ok dn) (src : List (Option Bool)) :
+theorem decode_sound (hen : encTree ops ws = .ok en) (hdn : decTree ops ws = .ok dn)
+    (src : List (Option Bool)) :
     (∃ s w rest, decode dn src = .ok (s, rest) ∧ s < ws.length ∧ encodePrefix en s = .ok w ∧
         src = w.map some ++ rest) ∨
       decode dn src = .error .outOfData ∨ decode dn src = .error .backend := by
-  obtain ⟨en', dn', T, he, hd, _, B⟩ := admissible_build h
-  rw [hen] at he; injection he with he; subst he
+  obtain ⟨dn', T, hd, _, B⟩ := built_of_enc hen
   rw [hdn] at hd; injection hd with hd; subst hd
   exact B.decode_total src
 
 /-- a source that ends strictly inside a codeword gives `OutOfCompressedData` -/
-theorem decode_truncated (h : Admissible wb ws) (hen : encTree wb ws = .ok en)
-    (hdn : decTree wb ws = .ok dn) {s : Nat} {p q : List Bool}
-    (hw : encodePrefix en s = .ok (p ++ q)) (hq : q ≠ []) :
+theorem decode_truncated (hen : encTree ops ws = .ok en) (hdn : decTree ops ws = .ok dn)
+    {s : Nat} {p q : List Bool} (hw : encodePrefix en s = .ok (p ++ q)) (hq : q ≠ []) :
     decode dn (p.map some) = .error .outOfData := by
-  obtain ⟨en', dn', T, he, hd, _, B⟩ := admissible_build h
-  rw [hen] at he; injection he with he; subst he
+  obtain ⟨dn', T, hd, _, B⟩ := built_of_enc hen
   rw [hdn] at hd; injection hd with hd; subst hd
   by_cases hs : s < ws.length
   · obtain ⟨w, hwc⟩ := B.code_of_lt hs
@@ -92,11 +106,10 @@ theorem decode_truncated (h : Admissible wb ws) (hen : encTree wb ws = .ok en)
   · rw [B.prefix_reject (by omega)] at hw; cases hw
 
 /-- the code is prefix-free -/
-theorem prefix_free (h : Admissible wb ws) (hen : encTree wb ws = .ok en) {s1 s2 : Nat}
+theorem prefix_free (hen : encTree ops ws = .ok en) {s1 s2 : Nat}
     {w1 w2 : List Bool} (h1 : encodePrefix en s1 = .ok w1) (h2 : encodePrefix en s2 = .ok w2)
     (hp : w1 <+: w2) : s1 = s2 := by
-  obtain ⟨en', dn', T, he, _, _, B⟩ := admissible_build h
-  rw [hen] at he; injection he with he; subst he
+  obtain ⟨dn', T, _, _, B⟩ := built_of_enc hen
   have hs1 : s1 < ws.length := by
     by_cases hs : s1 < ws.length
     · exact hs
@@ -114,11 +127,10 @@ theorem prefix_free (h : Admissible wb ws) (hen : encTree wb ws = .ok en) {s1 s2
 /-- **Kraft equality** `Σ_s 2^(-len s) = 1`, stated on naturals with the common denominator
 `2^n` (every codeword is shorter than `n`): the code is complete.  (For `n = 1` the single
 codeword is empty and the equality reads `2^1 = 2^1`.) -/
-theorem kraft_equality (h : Admissible wb ws) (hen : encTree wb ws = .ok en) :
+theorem kraft_equality (hen : encTree ops ws = .ok en) :
     (∀ s, s < ws.length → wordLen en s < ws.length) ∧
     ((List.range ws.length).map (fun s => 2^(ws.length - wordLen en s))).sum = 2^ws.length := by
-  obtain ⟨en', dn', T, he, _, _, B⟩ := admissible_build h
-  rw [hen] at he; injection he with he; subst he
+  obtain ⟨dn', T, _, _, B⟩ := built_of_enc hen
   constructor
   · intro s hs
     obtain ⟨p, hp⟩ := B.code_of_lt hs
@@ -131,111 +143,173 @@ theorem kraft_equality (h : Admissible wb ws) (hen : encTree wb ws = .ok en) :
     rw [B.wordLen_eq (by simpa using hs)]
 
 /-- a single symbol gets the empty codeword (and decoding consumes nothing) -/
-theorem single_symbol (w : Nat) (h : Admissible wb [w]) :
-    ∃ en dn, encTree wb [w] = .ok en ∧ decTree wb [w] = .ok dn ∧
-      encodePrefix en 0 = .ok [] ∧ encodeSuffix en 0 = .ok [] ∧
+theorem single_symbol (w : α) (hen : encTree ops [w] = .ok en) (hdn : decTree ops [w] = .ok dn) :
+    encodePrefix en 0 = .ok [] ∧ encodeSuffix en 0 = .ok [] ∧
       ∀ src, decode dn src = .ok (0, src) := by
-  obtain ⟨en, dn, T, he, hd, _, B⟩ := admissible_build h
+  obtain ⟨dn', T, hd, _, B⟩ := built_of_enc hen
+  rw [hdn] at hd; injection hd with hd; subst hd
   obtain ⟨p, hp⟩ := B.code_of_lt (s := 0) (by simp)
   have hlen := B.code_len hp
   have hp0 : p = [] := List.eq_nil_of_length_eq_zero (by
     have : [w].length = 1 := rfl
     omega)
   subst hp0
-  refine ⟨en, dn, he, hd, B.prefix hp, by simpa using B.suffix hp, ?_⟩
+  refine ⟨B.prefix hp, by simpa using B.suffix hp, ?_⟩
   intro src
   simpa using B.dec_word hp src
 
 /-- symbols outside the alphabet are rejected (see also `C09_huff`) -/
-theorem out_of_alphabet (h : Admissible wb ws) (hen : encTree wb ws = .ok en) {s : Nat}
-    (hs : ws.length ≤ s) :
+theorem out_of_alphabet (hen : encTree ops ws = .ok en) {s : Nat} (hs : ws.length ≤ s) :
     encodeSuffix en s = .error .impossible ∧ encodePrefix en s = .error .impossible := by
-  obtain ⟨en', dn', T, he, _, _, B⟩ := admissible_build h
-  rw [hen] at he; injection he with he; subst he
+  obtain ⟨dn', T, _, _, B⟩ := built_of_enc hen
   exact ⟨B.suffix_reject hs, B.prefix_reject hs⟩
 
-/-- **determinism / tie-breaking by index**: the construction is a function of the weight
-list, and its only choice — which heap entry `pop` returns — is the minimum of the
-lexicographic order on `(weight, index)`: among equal weights the smaller index.  It does not
-depend on the layout of the heap (any two heaps with the same entries pop the same entry and
-leave the same entries). -/
-theorem ties_by_index {heap heap' : List (Nat × Nat)} (hp : heap.Perm heap') {m r m' r'}
-    (e : popMin heap = some (m, r)) (e' : popMin heap' = some (m', r')) :
+/-! ## 2. When the constructors succeed -/
+
+/-- a weight type whose `+` never panics (`exactOps`, `wrappingOps n`, and the float instances
+as long as no `inf + -inf` occurs): both constructors succeed for 1 … `usize::MAX/4` symbols -/
+theorem constructors_ok_total (ht : Total ops) (hs : SizeOK ws) :
+    ∃ en dn, encTree ops ws = .ok en ∧ decTree ops ws = .ok dn := by
+  obtain ⟨en, dn, _, he, hd, _, _⟩ := total_build ht hs
+  exact ⟨en, dn, he, hd⟩
+
+/-- checked `n`-bit integer weights: both constructors succeed whenever the total weight fits
+(no panic, no overflow, no unchecked index out of bounds) and report the right alphabet size -/
+theorem constructors_ok {n : Nat} {ws : List Nat} (hs : SizeOK ws) (hfit : WeightsFit n ws) :
+    ∃ en dn, encTree (checkedOps n) ws = .ok en ∧ decTree (checkedOps n) ws = .ok dn ∧
+      encNumSymbols en = ws.length ∧ decNumSymbols dn = ws.length := by
+  obtain ⟨he, hd, _⟩ := checked_eq_exact hfit
+  obtain ⟨en, dn, he', hd'⟩ := constructors_ok_total total_exact hs
+  rw [← he] at he'
+  obtain ⟨dn', hd'', h1, h2⟩ := constructors_agree he'
+  exact ⟨en, dn', he', hd'', h1, h2⟩
+
+/-- the weight type does not matter as long as the sums fit: checked integer types of any
+width build the same arrays as exact arithmetic -/
+theorem independent_of_weight_type {n : Nat} {ws : List Nat} (hfit : WeightsFit n ws) :
+    encTree (checkedOps n) ws = encTree exactOps ws ∧
+      decTree (checkedOps n) ws = decTree exactOps ws :=
+  ⟨(checked_eq_exact hfit).1, (checked_eq_exact hfit).2.1⟩
+
+/-! ## 3. Determinism and tie-breaking by index (weights ordered like the naturals) -/
+
+/-- `pop` returns the minimum of the lexicographic order on `(weight, index)` — among equal
+weights the smaller index — and this does not depend on the layout of the heap -/
+theorem pop_is_lexicographic_min {ops : WeightOps Nat} (hlt : NatOrder ops)
+    {heap heap' : List (Nat × Nat)} (hp : heap.Perm heap') {m r m' r'}
+    (e : popMin ops heap = some (m, r)) (e' : popMin ops heap' = some (m', r')) :
     m = m' ∧ r.Perm r' ∧
     ∀ x ∈ heap, m.1 < x.1 ∨ (m.1 = x.1 ∧ m.2 ≤ x.2) := by
-  obtain ⟨h1, h2⟩ := popMin_layout hp e e'
+  obtain ⟨h1, h2⟩ := popMin_layout hlt hp e e'
   refine ⟨h1, h2, ?_⟩
   intro x hx
   rcases List.mem_cons.mp ((popMin_perm e).mem_iff.mp hx) with rfl | hxr
   · right; exact ⟨rfl, Nat.le_refl _⟩
-  · exact popMin_min e x hxr
+  · exact popMin_min hlt e x hxr
 
-/-- the weight type does not matter as long as the sums fit: integer types of any width and
-the exact-sum float model build the same arrays -/
-theorem independent_of_weight_type (h : Admissible wb ws) :
-    encTree wb ws = encTree none ws ∧ decTree wb ws = decTree none ws := by
-  have hno := noOverflow_zipIdx h.2.2
-  constructor
-  · simp only [encTree]
-    split
-    · rfl
-    · exact encLoop_wb_irrelevant wb _ _ _ _ hno
-  · simp only [decTree]
-    split
-    · rfl
-    · exact decLoop_wb_irrelevant wb _ _ _ _ hno
+/-- **determinism**: the construction is a function of the weight list alone — modelling
+`BinaryHeap` by a list loses nothing, because both loops return the same arrays for every
+arrangement of the heap's entries -/
+theorem deterministic {ops : WeightOps Nat} (hlt : NatOrder ops) {heap heap' : List (Nat × Nat)}
+    (hp : heap.Perm heap') (fuel next : Nat) (arr : List Nat) (acc : List (Nat × Nat)) :
+    encLoop ops fuel heap arr next = encLoop ops fuel heap' arr next ∧
+    decLoop ops fuel heap acc next = decLoop ops fuel heap' acc next :=
+  ⟨encLoop_layout hlt fuel heap heap' arr next hp, decLoop_layout hlt fuel heap heap' acc next hp⟩
 
-/-! ## Optimality -/
+/-- **tie-breaking by index** (exact sums): codeword lengths are monotone in `(weight, index)`.
+If symbol `i` is lighter than symbol `j`, or equally heavy with `i ≤ j`, then `j`'s codeword is
+not longer than `i`'s.  In particular among symbols of equal weight the codeword length is
+non-increasing in the index. -/
+theorem ties_by_index {ws : List Nat} (hen : encTree exactOps ws = .ok en)
+    {i j wi wj : Nat} (hi : ws[i]? = some wi) (hj : ws[j]? = some wj)
+    (hle : wi < wj ∨ (wi = wj ∧ i ≤ j)) : wordLen en j ≤ wordLen en i := by
+  obtain ⟨dn', T, _, hT, B⟩ := built_of_enc hen
+  have hi' : i < ws.length := by
+    rcases Nat.lt_or_ge i ws.length with h | h
+    · exact h
+    · rw [List.getElem?_eq_none h] at hi; cases hi
+  have hj' : j < ws.length := by
+    rcases Nat.lt_or_ge j ws.length with h | h
+    · exact h
+    · rw [List.getElem?_eq_none h] at hj; cases hj
+  rw [B.wordLen_eq hi', B.wordLen_eq hj']
+  exact huffTree_ties hT hi hj hle
 
-/-- the full optimality statement: for every admissible weight list, the code emitted through
-the encoder array has minimum total weighted length `Σ_s w_s · |codeword_s|` among **all**
-prefix-free assignments of bit strings to the symbols `0 … n-1` — in particular among the
-root-to-leaf codes of all binary trees with these leaves. -/
+/-- the same for checked integer weights whose total fits the type -/
+theorem ties_by_index_checked {n : Nat} {ws : List Nat} (hfit : WeightsFit n ws)
+    (hen : encTree (checkedOps n) ws = .ok en)
+    {i j wi wj : Nat} (hi : ws[i]? = some wi) (hj : ws[j]? = some wj)
+    (hle : wi < wj ∨ (wi = wj ∧ i ≤ j)) : wordLen en j ≤ wordLen en i := by
+  rw [(checked_eq_exact hfit).1] at hen
+  exact ties_by_index hen hi hj hle
+
+/-! ## 4. Optimality (exact sums) -/
+
+/-- the full optimality statement: whenever the constructor returns (exact weights, or checked
+integer weights whose total fits), the code emitted through the encoder array has minimum
+total weighted length `Σ_s w_s · |codeword_s|` among **all** prefix-free assignments of bit
+strings to the symbols `0 … n-1` — in particular among the root-to-leaf codes of all binary
+trees with these leaves. -/
 def HuffmanOptimal : Prop :=
-  ∀ (wb : Option Nat) (ws : List Nat) (en : List Nat), Admissible wb ws → encTree wb ws = .ok en →
-    ∀ c : Nat → List Bool, PrefixFree ws.length c → codeCost ws en ≤ assignCost ws c
+  (∀ (ws : List Nat) (en : List Nat), encTree exactOps ws = .ok en →
+    ∀ c : Nat → List Bool, PrefixFree ws.length c → codeCost ws en ≤ assignCost ws c) ∧
+  (∀ (n : Nat) (ws : List Nat) (en : List Nat), WeightsFit n ws →
+    encTree (checkedOps n) ws = .ok en →
+    ∀ c : Nat → List Bool, PrefixFree ws.length c → codeCost ws en ≤ assignCost ws c)
 
 /-- optimality among all code trees (full binary or not) on the same alphabet -/
-theorem optimal_among_trees (h : Admissible wb ws) (hen : encTree wb ws = .ok en)
+theorem optimal_among_trees {ws : List Nat} (hen : encTree exactOps ws = .ok en)
     {U : Tree} (hU : U.IsCodeTree ws.length) : codeCost ws en ≤ U.wcost ws := by
-  obtain ⟨en', dn', T, he, _, hT, B⟩ := admissible_build h
-  rw [hen] at he; injection he with he; subst he
+  obtain ⟨dn', T, _, hT, B⟩ := built_of_enc hen
   rw [B.codeCost_eq]
-  exact huffTree_optimal h.1 hT hU
+  exact huffTree_optimal hT hU
 
 /-- **optimality** (the classical exchange argument: sibling lemma + induction over the merge
 loop, after Blanchette's Isabelle proof), closed in full: `HuffmanOptimal` holds. -/
 theorem huffman_optimal : HuffmanOptimal := by
-  intro wb ws en h hen c hc
-  obtain ⟨en', dn', T, he, _, hT, B⟩ := admissible_build h
-  rw [hen] at he; injection he with he; subst he
-  rw [B.codeCost_eq]
-  exact huffTree_optimal_codes h.1 hT hc
+  have main : ∀ (ws : List Nat) (en : List Nat), encTree exactOps ws = .ok en →
+      ∀ c : Nat → List Bool, PrefixFree ws.length c → codeCost ws en ≤ assignCost ws c := by
+    intro ws en hen c hc
+    obtain ⟨dn', T, _, hT, B⟩ := built_of_enc hen
+    rw [B.codeCost_eq]
+    exact huffTree_optimal_codes B.n_pos hT hc
+  refine ⟨main, ?_⟩
+  intro n ws en hfit hen c hc
+  rw [(checked_eq_exact hfit).1] at hen
+  exact main ws en hen c hc
 
 /-- the cost the theorems speak about is that of the emitted codewords and, equivalently, the
 weighted path length of the common tree of `same_tree` -/
-theorem cost_is_tree_cost (h : Admissible wb ws) (hen : encTree wb ws = .ok en) :
-    ∃ T : Tree, huffTree ws = some T ∧ T.IsCodeTree ws.length ∧ codeCost ws en = T.wcost ws := by
-  obtain ⟨en', dn', T, he, _, hT, B⟩ := admissible_build h
-  rw [hen] at he; injection he with he; subst he
+theorem cost_is_tree_cost {ws : List Nat} (hen : encTree exactOps ws = .ok en) :
+    ∃ T : Tree, huffTree exactOps ws = some T ∧ T.IsCodeTree ws.length ∧
+      codeCost ws en = T.wcost ws := by
+  obtain ⟨dn', T, _, hT, B⟩ := built_of_enc hen
   exact ⟨T, hT, B.leaves, B.codeCost_eq⟩
 
 /-! ## Non-vacuity: concrete instances satisfy the hypotheses -/
 
-example : Admissible (some 32) [2, 2, 4, 1, 1] := by
-  refine ⟨by decide, by decide, ?_⟩; simp [WeightsFit]
-example : Admissible none [1, 1, 1] := ⟨by decide, by decide, trivial⟩
-example : Admissible (some 8) [0] := by
-  refine ⟨by decide, by decide, ?_⟩; simp [WeightsFit]
-example : encTree (some 32) [2, 2, 4, 1, 1] = .ok [12, 13, 15, 10, 11, 14, 16, 17, 0] := by rfl
-example : decTree (some 32) [2, 2, 4, 1, 1] = .ok [(3, 4), (0, 1), (5, 2), (6, 7)] := by rfl
+example : SizeOK [2, 2, 4, 1, 1] := ⟨by decide, by decide⟩
+example : WeightsFit 32 [2, 2, 4, 1, 1] := by simp [WeightsFit]
+example : Total exactOps := total_exact
+example : Total (wrappingOps 8) := total_wrapping 8
+example : NatOrder (checkedOps 16) := natOrder_checked 16
+example : encTree (checkedOps 32) [2, 2, 4, 1, 1] = .ok [12, 13, 15, 10, 11, 14, 16, 17, 0] := by rfl
+example : decTree (checkedOps 32) [2, 2, 4, 1, 1] = .ok [(3, 4), (0, 1), (5, 2), (6, 7)] := by rfl
+example : encTree exactOps [2, 2, 4, 1, 1] = .ok [12, 13, 15, 10, 11, 14, 16, 17, 0] := by rfl
+/-- a wrapping (release-build) `u8` sum: `150 + 150` wraps to `44` and is popped before `200`;
+still a valid (no longer optimal) code tree, covered by the structural theorems -/
+example : encTree (wrappingOps 8) [150, 150, 100, 100] = .ok [10, 11, 8, 9, 13, 12, 0] := by rfl
+example : encTree exactOps [150, 150, 100, 100] = .ok [10, 11, 8, 9, 12, 13, 0] := by rfl
+example : encTree (checkedOps 8) [150, 150, 100, 100] = .error (.overflow "huff.add") := by rfl
 example : encodePrefix [12, 13, 15, 10, 11, 14, 16, 17, 0] 4 = .ok [true, false, true] := by rfl
 example : encodeSuffix [12, 13, 15, 10, 11, 14, 16, 17, 0] 3 = .ok [false, false, true] := by rfl
 example : decode [(3, 4), (0, 1), (5, 2), (6, 7)] [some true, some false, some true, none] =
     .ok (4, [none]) := by rfl
 example : codeCost [2, 2, 4, 1, 1] [12, 13, 15, 10, 11, 14, 16, 17, 0] = 22 := by rfl
 /-- ties are broken by index: `[1, 1]` gives symbol 0 the bit 0 -/
-example : encTree (some 32) [1, 1] = .ok [4, 5, 0] := by rfl
+example : encTree (checkedOps 32) [1, 1] = .ok [4, 5, 0] := by rfl
+example : ([2, 2, 4, 1, 1] : List Nat)[3]? = some 1 ∧ ([2, 2, 4, 1, 1] : List Nat)[4]? = some 1 := by
+  decide
 example : PrefixFree 2 (fun s => if s = 0 then [false] else [true]) := by
   intro s1 s2 h1 h2 hp
   have : s1 = 0 ∨ s1 = 1 := by omega
@@ -248,7 +322,8 @@ example : (Tree.node 9 (.leaf 0) (.node 8 (.leaf 2) (.leaf 1))).IsCodeTree 3 := 
 
 end CV.Huff.C15
 
-#print axioms CV.Huff.C15.constructors_ok
+#print axioms CV.Huff.C15.constructors_agree
+#print axioms CV.Huff.C15.constructors_agree_conv
 #print axioms CV.Huff.C15.same_tree
 #print axioms CV.Huff.C15.prefix_eq_reverse_suffix
 #print axioms CV.Huff.C15.decode_prefix
@@ -258,8 +333,13 @@ end CV.Huff.C15
 #print axioms CV.Huff.C15.kraft_equality
 #print axioms CV.Huff.C15.single_symbol
 #print axioms CV.Huff.C15.out_of_alphabet
-#print axioms CV.Huff.C15.ties_by_index
+#print axioms CV.Huff.C15.constructors_ok_total
+#print axioms CV.Huff.C15.constructors_ok
 #print axioms CV.Huff.C15.independent_of_weight_type
+#print axioms CV.Huff.C15.pop_is_lexicographic_min
+#print axioms CV.Huff.C15.deterministic
+#print axioms CV.Huff.C15.ties_by_index
+#print axioms CV.Huff.C15.ties_by_index_checked
 #print axioms CV.Huff.C15.optimal_among_trees
 #print axioms CV.Huff.C15.huffman_optimal
 #print axioms CV.Huff.C15.cost_is_tree_cost
